@@ -31,7 +31,7 @@ def fault_step_job(N, k, recalc, exc, later=0):
         del agp.PRINTS[:]
         solver, prob, items, info = agp.inv_state(ex, N, k, recalc=recalc, md_inf=True, best=None if k > 1 else 0, fail=(k + later, exc), iters_limit=1000)
         # the run is not over yet, and the counters are those of a run made of global iterations only (Inv)
-        ex.assume(z3.And(info['spec']['iterations'].t >= 994, info['spec']['iterations'].t < 997))      # a few iterations are left, so a run that goes on ends soon
+        ex.assume(z3.And(info['spec']['iterations'].t == 999 - later))      # exactly the failing iteration is left in the budget: a run that wrongly goes on ends at once
         ex.assume(info['spec']['trials'].t == k)
         n0 = len(prob.started)
         sol = solver.Solve()
@@ -61,14 +61,14 @@ def scenarios(run):
     for i, exc in enumerate(excs):
         for N in (1, 2):
             for fk in (1, 2):
-                cfg = dict(base, N=N, r=2.5, seed=0, kpre=0, nsym=4, script=[('solve',)], iters_limit=50, density=2 if N > 1 else None,
+                cfg = dict(base, N=N, r=2.5, seed=0, kpre=0, nsym=4, script=[('solve',)], iters_limit=fk + 2, density=2 if N > 1 else None,
                            fail=(fk, exc), tags=['fresh-fault-%d' % (fk + 1)])
                 out.append((cfg, 'fresh N=%d: %s on evaluation %d, all values symbolic' % (N, exc, fk + 1)))
     seeds = [(run.seed * 3 + i) % 50 for i in range(2 if quick else 6)] + [3]
     for j, sd in enumerate(seeds):
         for kpre in ((3,) if quick else (2, 3, 4, 5)):
             exc = EXCS[(j + kpre) % len(EXCS)]
-            cfg = dict(base, N=1, r=2.5, seed=sd, kpre=kpre, nsym=3, script=[('iter', kpre), ('solve',)], iters_limit=50, fail=(kpre + 1, exc),
+            cfg = dict(base, N=1, r=2.5, seed=sd, kpre=kpre, nsym=3, script=[('iter', kpre), ('solve',)], iters_limit=kpre + 3, fail=(kpre + 1, exc),
                        tags=['prefix-fault'])
             out.append((cfg, 'prefix f#%d (%d concrete values), then Solve with %s on evaluation %d' % (sd, kpre, exc, kpre + 2)))
     return out
